@@ -22,6 +22,20 @@ fn go<T: Lab>(op: &str, args: &[Arg]) -> Option<String> {
         ("single", [Arg::Z(x)]) => return Some(res_arr(&Array::<T>::single(T::from_lab(*x)))),
         ("flat", [Arg::L(es)]) => return Some(res_arr(&Array::<T>::flat(es.iter().map(|&x| T::from_lab(x)).collect()))),
         ("empty", []) => return Some(res_arr(&Array::<T>::empty())),
+        // FromIterator from iterators whose size hint is an upper bound only (filter / take_while / skip_while): the
+        // collected array is flat and holds exactly the surviving elements (seeded change C01n: shape taken from the hint)
+        ("collect_filter", [Arg::L(es), Arg::Z(m), Arg::Z(kind)]) => {
+            let keep = |x: &i128| x.rem_euclid(*m) != 0;
+            let collected: Array<T> = match kind {
+                0 => es.iter().filter(|x| keep(x)).map(|&x| T::from_lab(x)).collect(),
+                1 => es.iter().take_while(|x| keep(x)).map(|&x| T::from_lab(x)).collect(),
+                2 => es.iter().skip_while(|x| keep(x)).map(|&x| T::from_lab(x)).collect(),
+                _ => { let a: Array<T> = es.iter().map(|&x| T::from_lab(x)).collect();
+                       let labs = es.clone(); let mut i = 0usize;
+                       a.into_iter().filter(|_| { let k = keep(&labs[i]); i += 1; k }).collect() }
+            };
+            return Some(res_arr(&Ok(collected)))
+        }
         _ => {}
     }
     let (sh, es) = match args.first() { Some(Arg::A(sh, es)) => (sh, es), _ => return None };
@@ -45,7 +59,7 @@ fn go<T: Lab>(op: &str, args: &[Arg]) -> Option<String> {
 pub fn dispatch(op: &str, ty: &str, args: &[Arg]) -> Option<String> {
     match op {
         "transpose" | "moveaxis" | "rollaxis" | "swapaxes" | "expand_dims" | "squeeze" | "reshape" | "ravel"
-        | "atleast" | "resize" | "cycle_take" | "new" | "create" | "single" | "flat" | "empty" => {}
+        | "atleast" | "resize" | "cycle_take" | "new" | "create" | "single" | "flat" | "empty" | "collect_filter" => {}
         _ => return None,
     }
     let r: String = with_lab_type!(ty, T, match go::<T>(op, args) { Some(s) => s, None => "bad".to_string() });
